@@ -388,6 +388,12 @@ M("C03", "twin-validate-mirrored", DSGE, "        if self.max_depth < self.gramm
 # ------------------------------------------------------------------------------------- C04
 M("C04", "grow-filter-strict", INI, "        alternatives = [\n            x for x in alternatives if self.grammar.get_distance_to_terminal(x) <= (self.max_depth - ctx.depth)\n        ]\n        return self.random.choice(alternatives)\n\n    def validate",
   "        alternatives = [\n            x for x in alternatives if self.grammar.get_distance_to_terminal(x) < (self.max_depth - ctx.depth)\n        ]\n        return self.random.choice(alternatives)\n\n    def validate", "C04.R1")
+M("C04", "refined-list-elements-one-level-down", INI, "context=LocalSynthesisContext(context.depth, context.nodes, context.expansions + 1, dependent_vals),",
+  "context=LocalSynthesisContext(context.depth + int(is_generic_list(base_type)), context.nodes, context.expansions + 1, dependent_vals),", "C04.R1")
+M("C03", "refined-list-elements-one-level-down", INI, "context=LocalSynthesisContext(context.depth, context.nodes, context.expansions + 1, dependent_vals),",
+  "context=LocalSynthesisContext(context.depth + int(is_generic_list(base_type)), context.nodes, context.expansions + 1, dependent_vals),", "C03.R1")
+M("C04", "twin-refined-context-built-once", INI, "        def recurse(typ: type, **kwargs):\n", "        rctx_depth = context.depth\n\n        def recurse(typ: type, **kwargs):\n", "", expect="silent",
+  extra=[(INI, "context=LocalSynthesisContext(context.depth, context.nodes, context.expansions + 1, dependent_vals),", "context=LocalSynthesisContext(rctx_depth, context.nodes, context.expansions + 1, dependent_vals),")])
 M("C04", "recurse-context-swapped", INI, "context=LocalSynthesisContext(context.depth, context.nodes, context.expansions + 1, dependent_vals),", "context=LocalSynthesisContext(context.nodes, context.depth, context.expansions + 1, dependent_vals),", "C04.R1")
 M("C04", "list-length-from-module-random", INI, "        length = decider.random_int(0, 10)\n", "        import random as _random\n        length = _random.randint(0, 10)\n", "C04.R2")
 M("C04", "full-frontier-two-above", INI, "or self.grammar.get_distance_to_terminal(x) == (self.max_depth - ctx.depth - 1)", "or self.grammar.get_distance_to_terminal(x) == (self.max_depth - ctx.depth - 2)", "C04.R3")
